@@ -91,6 +91,8 @@ def shrink(mod, viol, budget=60):
     if not hasattr(mod, "shrink_candidates"):
         return viol, 0
     sig = viol["signature"]
+    if sig.startswith("hang"):
+        budget = min(budget, 4)  # every candidate costs a full run timeout
     cur = viol
     used = 0
     progress = True
